@@ -287,3 +287,46 @@ func (g *Gen) streamCall() *Pipeline {
 	}
 	return &Pipeline{Forms: []Form{src, mk(nil)}}
 }
+
+// indexEdge: indexing an empty or one-element list, string or map, alone,
+// as a part of a compound expression (the index applies to the last primary
+// and is evaluated before the concatenation) and applied to a whole compound
+// grouped by a braced list.
+func (g *Gen) indexEdge() *Pipeline {
+	vars := []string{"el", "es", "em", "sl", "ss", "sm"}
+	v := vars[g.r.Intn(len(vars))]
+	idxs := []string{"0", "7", "-1", "k", "0..", "..0", "1..", "0..1", ".."}
+	ix := func() Expr {
+		s := idxs[g.r.Intn(len(idxs))]
+		if g.chance(20) {
+			return capture(call("num", intLit([]int{0, 1, -1, 7}[g.r.Intn(4)])))
+		}
+		return &Str{S: s}
+	}
+	indexed := &Index{X: &Var{Name: v}, Indices: [][]Expr{{ix()}}}
+	if g.chance(20) {
+		indexed.Indices[0] = append(indexed.Indices[0], ix())
+	}
+	var e Expr
+	switch g.r.Intn(6) {
+	case 0, 1:
+		e = indexed
+	case 2:
+		e = &Compound{Parts: []Expr{g.strAtom(), indexed}}
+	case 3:
+		e = &Compound{Parts: []Expr{indexed, g.strAtom()}}
+	case 4:
+		e = &Compound{Parts: []Expr{g.strAtom(), indexed, intLit(g.r.Intn(3))}}
+	default:
+		// the whole compound indexed: {g$v}[i]
+		e = &Index{X: &Compound{Parts: []Expr{g.strAtom(), &Var{Name: v}}}, Indices: [][]Expr{{ix()}}}
+	}
+	if g.chance(25) {
+		key := []string{"0", "7", "-1", "0..", "..0", "0..1"}[g.r.Intn(6)]
+		if v == "em" || v == "sm" {
+			key = []string{"k", "q", "0"}[g.r.Intn(3)]
+		}
+		return stmt(call("has-key", &Var{Name: v}, &Str{S: key}))
+	}
+	return stmt(call("put", e))
+}
